@@ -16,6 +16,7 @@ from vf import core
 EX, SUB, SUB2 = "example.com", "a.example.com", "b.a.example.com"
 INNER, NEAR, NEAR2 = "a.example.com.evil.org", "notexample.com", "evil-example.com"
 LPRE, OTHER, IP = "a.example.community", "other.org", "10.1.2.3"
+SUFX = "a.example.com.notexample.com"  # ".example.com" occurs inside AND "example.com" ends the host without a dot
 
 
 def _ck(name, dom=None, path=None, expired=False):
@@ -40,6 +41,7 @@ SET_QUICK = [
     _set(EX, 80, _ck("c", "other.org")),
     _set(EX, 80, _ck("d", None, "/foo"), _ck("d", None, "/foo", True)),
     _set(NEAR, 80, _ck("a", ".example.com")),
+    _set(SUFX, 80, _ck("a", ".example.com")),
     _set(SUB, 80, _ck("b", "example.com")),
     _set(EX, 80, _ck("a", ".example.com", "/foo"), _ck("b", ".example.com", "/foo")),
 ]
@@ -52,6 +54,7 @@ REQ_QUICK = [
     _req(SUB, 80, "/foo"),
     _req(INNER, 80, "/foo"),
     _req(NEAR, 80, "/foo"),
+    _req(SUFX, 80, "/foo"),
     _req(EX, 80, "/foo", False),
 ]
 SET_THOROUGH = SET_QUICK + [
@@ -171,7 +174,7 @@ class Check(core.PropertyCheck):
         s, r = self._tables(tier)
         return {"SetOps": tuple(tla_set_op(o) for o in s), "ReqOps": tuple(tla_req_op(o) for o in r),
                 "Filters": frozenset({"all", "get"}), "MaxOps": 3 if tier == "quick" else 4,
-                "MaxSets": 2 if tier == "quick" else 3}
+                "MaxSets": 2 if tier == "quick" else 3, "DomainRule": "suffix_and_rfind", "PathRule": "rfc"}
 
     def model_runs(self, ctx):
         # generous timeouts: the sandbox is shared, TLC slows down by an order of magnitude under load
@@ -216,6 +219,7 @@ class Check(core.PropertyCheck):
         stem = rng.choice([EX, "example.org", "ex.co"])
         good = [stem, "a." + stem, "b.a." + stem, stem.upper(), "A." + stem]
         odd = ["a." + stem + ".evil.org", stem + ".evil.org", "not" + stem, "evil-" + stem, "a." + stem + "munity",
+               "a." + stem + ".not" + stem, "b." + stem + ".x" + stem,
                "a." + stem + "-x.org", OTHER, IP, "10.1.2.30"]
         hosts = rng.sample(good, 2) + rng.sample(odd, 2)
         doms = [None, rng.choice([stem, "." + stem]), rng.choice(["a." + stem, ".a." + stem, "." + stem.upper()]),
